@@ -5,6 +5,7 @@ pub mod common;
 pub mod s_intervals;
 pub mod tygen;
 pub mod s_dtype;
+pub mod s_hier;
 
 use common::*;
 use std::io::{BufRead, Write};
@@ -16,6 +17,8 @@ fn streams() -> Vec<(&'static str, GenFn, EvalFn)> {
     vec![
         ("intervals", s_intervals::gen, s_intervals::eval),
         ("dtype", s_dtype::gen, s_dtype::eval),
+        ("hier", s_hier::gen_hier, s_hier::eval_hier),
+        ("scope", s_hier::gen_scope, s_hier::eval_scope),
     ]
 }
 
